@@ -1,0 +1,42 @@
+//go:build verif
+
+// Contracts for the verification machinery in /verif (comment-only; compiled only with -tags verif).
+//
+// The decorator reaches the enterprise keeper through an interface; the contracts assume the concrete keeper
+// that app.go wires in (checked by the frame obligation on the app wiring).
+package ante
+
+//@ implements EnterpriseKeeper github.com/unification-com/mainchain/x/enterprise/keeper.Keeper
+
+// Locked eFUND is released only to the fee payer of a WRKChain/BEACON transaction, and only by the unlock rule:
+// x = fee in the module denomination when locked >= fee; all that is locked when liquid + locked covers the fee;
+// nothing otherwise (the fee deduction that follows then rejects the transaction).  That is min(fee, locked) for
+// every transaction that passes the chain.  What the decorator guarantees is stated at the point where it hands on
+// to the rest of the chain (`at_next`); when it returns an error instead, baseapp discards the ante branch.
+//
+// Preconditions besides the ledger invariants: a WRKChain/BEACON transaction offers a positive amount in the module
+// denomination (established at CheckTx by the two fee decorators that run before this one; with a zero fee the
+// unlock panics inside Coins.SafeSub and baseapp rejects the transaction), magnitudes below 2^255, and the fee payer
+// is not the escrow module account (module accounts have no keys).
+//@ func CheckLockedUndDecorator.AnteHandle(ctx, tx, simulate, next) (newCtx, err)
+//@   props C05 C04
+//@   requires ENT_BOOKS_WF(ent_store) && BANK_OK(bank_bal) && ENT_LEDGER(ent_store, bank_bal, bytesval(modAddr("enterprise")))
+//@   requires coinsValid(txFee(tx)) && coinsAmt(txFee(tx), entDenom(ent_store)) < P255
+//@   requires (wrkTx(tx) || beaTx(tx)) ==> coinsAmt(txFee(tx), entDenom(ent_store)) > 0
+//@   requires spentAmt(ent_store, bytesval(txFeePayer(tx))) + lockedAmt(ent_store, bytesval(txFeePayer(tx))) < P255 && totalSpentAmt(ent_store) + lockedAmt(ent_store, bytesval(txFeePayer(tx))) < P255
+//@   requires bytesval(txFeePayer(tx)) != bytesval(modAddr("enterprise"))
+//@   let s0 := old(ent_store)
+//@   let p := bytesval(txFeePayer(tx))
+//@   let esc := bytesval(modAddr("enterprise"))
+//@   let dn := entDenom(old(ent_store))
+//@   let L := lockedAmt(old(ent_store), bytesval(txFeePayer(tx)))
+//@   let F := coinsAmt(txFee(tx), entDenom(old(ent_store)))
+//@   let x := (L >= F) ? F : ((bankSpendable(old(bank_bal), bytesval(txFeePayer(tx)), entDenom(old(ent_store))) + L >= F) ? L : 0)
+//@   modifies ent_store, bank_bal
+//@   at_next @only_wrkchain_or_beacon_fees !(wrkTx(tx) || beaTx(tx)) ==> ent_store == s0 && bank_bal == old(bank_bal)
+//@   at_next @nothing_locked_nothing_moves L == 0 ==> ent_store == s0 && bank_bal == old(bank_bal)
+//@   at_next @unlock_rule (wrkTx(tx) || beaTx(tx)) && L > 0 ==> lockedAmt(ent_store, p) == L - x && spentAmt(ent_store, p) == spentAmt(s0, p) + x
+//@   at_next @totals_follow (wrkTx(tx) || beaTx(tx)) && L > 0 ==> totalLockedAmt(ent_store) == totalLockedAmt(s0) - x && totalSpentAmt(ent_store) == totalSpentAmt(s0) + x
+//@   at_next @escrow_pays_the_fee_payer (wrkTx(tx) || beaTx(tx)) && L > 0 ==> balOf(bank_bal, esc, dn) == balOf(old(bank_bal), esc, dn) - x && balOf(bank_bal, p, dn) == balOf(old(bank_bal), p, dn) + x
+//@   at_next @nobody_elses_books forall k `enterprise.Key` :: {ent_store[k]} k != kLocked(p) && k != kSpent(p) && k != kTotalLocked && k != kTotalSpent ==> ent_store[k] == s0[k]
+//@   at_next @inv ENT_BOOKS_WF(ent_store) && ENT_LEDGER(ent_store, bank_bal, esc) && BANK_OK(bank_bal)
